@@ -18,7 +18,8 @@ import ast
 from ..index import AnalysisError
 from .. import astq
 from ._c09_prov import (Prov, Chain, NONE, alts, const, is_const, seq_shape, strip_views, interface_positions,
-                        bind_interface, mentions, forwarded, proper_part, bool_behaviour, analysed)
+                        bind_interface, mentions, forwarded, proper_part, bool_behaviour, analysed,
+                        check_first_call_only)
 from .c09 import P, loc_of, fsig, tpos, TLoop, last_step_component, loop_plain
 
 SK = "sktime/forecasting/base/_sktime.py"
@@ -78,10 +79,35 @@ def concat_dedup_kind(res, t, new, attr):
     return None
 
 
+def plain_concat_kind(res, t, new, attr):
+    """``pd.concat([<part of OLD>, NEW])`` without de-duplication: 'truncates' when the old operand is a filtered / sliced
+    part of the remembered data (observations are forgotten), 'duplicates' when it is all of it (overlapping time points
+    are kept twice instead of the new value winning)."""
+    e = res.ret_event(t)
+    while e is not None and e.kind == "call" and e.target.kind == "attr" and e.name in ("sort_index", "copy") and not e.args:
+        t = e.recv
+        e = res.ret_event(t)
+    if e is None or e.kind != "call" or e.target.kind != "ext" or e.target.ext != "pandas.concat":
+        return None
+    objs = e.arg(0, "objs")
+    if not (isinstance(objs, tuple) and objs[0] in ("list", "tuple") and len(objs[1]) == 2 and new in objs[1]):
+        return None
+    other = [x for x in objs[1] if x != new]
+    if len(other) != 1:
+        return None
+    o = other[0]
+    if is_old(o, attr):
+        return "duplicates"
+    if isinstance(o, tuple) and o[0] == "item" and (is_old(o[1], attr) or (isinstance(o[1], tuple) and o[1][0] == "getattr" and is_old(o[1][1], attr)
+                                                                           and o[1][2] in ("loc", "iloc"))):
+        return "truncates"
+    return None
+
+
 def merge_kind(res, t, new, attr):
     """'ok' for NEW.combine_first(OLD) (or the concat + de-duplication form in which NEW wins), 'swapped' when OLD wins,
-    None otherwise."""
-    ck = concat_dedup_kind(res, t, new, attr)
+    'truncates' / 'duplicates' for a plain concat, None otherwise."""
+    ck = concat_dedup_kind(res, t, new, attr) or plain_concat_kind(res, t, new, attr)
     if ck is not None:
         return ck
     e = res.ret_event(t)
@@ -101,7 +127,7 @@ def merged_value(res, t, new, attr, any_order=False):
     """``t`` is what ``self.<attr>`` holds after the merge: the merge result, or (empty batch) the old value.
     ``any_order``: also accept a merge in which the old values win (the operand order is R1's obligation)."""
     a = alts(t)
-    good = ("ok", "swapped") if any_order else ("ok",)
+    good = ("ok", "swapped", "truncates", "duplicates") if any_order else ("ok",)
     kinds = [merge_kind(res, x, new, attr) for x in a]
     has = any(k in good for k in kinds)
     rest_ok = all(k in good or is_old(x, attr) for x, k in zip(a, kinds))
@@ -130,6 +156,7 @@ def r1(ctx, repo):
     fn = repo.func(SK, "_SktimeForecaster._update_y_X")
     res = analysed(ctx, Prov(repo).run_method(cls, "_update_y_X"))
     C = "_SktimeForecaster._update_y_X"
+    check_first_call_only(ctx, res, "R1", C, loc_of)
     loc0 = ctx.loc(cls.module, fn)
     val = [e for e in res.calls("check_y_X", kind=("inline", "call")) if e.target.dotted == "sktime.utils.validation.forecasting.check_y_X"]
     stores = [s for s in res.stores() if s.attr in ("_y", "_X", "_cutoff")]
@@ -166,6 +193,13 @@ def r1(ctx, repo):
                               % (attr, "OLD.combine_first(NEW)" if concat_dedup_kind(res, s.value, new, attr) is None else
                                  "concat + index.duplicated keeps the remembered entry"), loc_of(s),
                               witness={"history": "fit(y1); update(y2) with y2 overlapping the end of y1 with revised values"})
+            elif k == "truncates":
+                ctx.violation("R1", key, "self.%s = concat(part of OLD, NEW): remembered observations outside the kept part are forgotten "
+                              "(the union of all observations is not kept): %s" % (attr, res.fmt(s.value)), loc_of(s),
+                              witness={"history": "fit(y[0:10]); update(y[3:6]): observations 6..9 are lost; in-sample moving-cutoff prediction does exactly this"})
+            elif k == "duplicates":
+                ctx.violation("R1", key, "self.%s = concat(OLD, NEW) without de-duplication: an overlapping time point is kept twice instead of "
+                              "the new value replacing the old one" % attr, loc_of(s))
             elif s.value == new or strip_views(s.value) == P(pname):
                 ctx.violation("R1", key, "self.%s is replaced by the new batch: earlier observations are forgotten" % attr, loc_of(s))
             else:
@@ -220,6 +254,18 @@ def r1(ctx, repo):
 
 
 # ------------------------------------------------------------------------------------------ R2
+def _subterms(t):
+    out, stack = set(), [t]
+    while stack:
+        x = stack.pop()
+        if isinstance(x, tuple):
+            out.add(x)
+            stack.extend(x)
+        elif isinstance(x, frozenset):
+            stack.extend(x)
+    return out
+
+
 def guard_taken(res, facts, param):
     """Is a path with these facts taken for param = True / False?  (True/False/None each.)"""
     out = []
@@ -263,8 +309,22 @@ def r2(ctx, repo):
         return
     f = fits[0]
     facts = [(c, pol) for c, pol, origin in res.facts(f)]
+    # a test "the batch is not empty" next to update_params changes nothing (refitting on unchanged data is idempotent)
+    extra = [(c, pol) for c, pol in facts if not mentions(res, c, P("update_params"))]
+    benign = [(c, pol) for c, pol in extra if isinstance(c, tuple) and c[0] == "cmp" and (("len", P("y")) in (c[2], c[3]))]
+    stateful = [(c, pol) for c, pol in extra if (c, pol) not in benign and any(
+        isinstance(x, tuple) and len(x) >= 2 and x[0] in ("attr0", "attr@") for x in _subterms(c))]
+    if stateful:
+        ctx.violation("R2", C + ":refit-guarded", "with update_params=True the refit additionally depends on the forecaster's state (%s): a batch that "
+                      "leaves that state unchanged (e.g. revised values up to the current cutoff, or an earlier window) is merged but the "
+                      "parameters are not re-estimated" % ", ".join("%s is %s" % (res.fmt(c), p) for c, p in stateful), loc_of(f),
+                      witness={"history": "fit(y1); update(revised last points of y1, update_params=True) != fresh fit on the merged data"})
+        facts = [x for x in facts if x not in stateful]
+    facts = [x for x in facts if x not in benign]
     taken = guard_taken(res, facts, P("update_params"))
-    if taken == (True, False):
+    if stateful:
+        pass
+    elif taken == (True, False):
         ctx.ok("R2", C + ":refit-guarded", "refit iff update_params", loc_of(f))
     elif taken[1] is True:
         ctx.violation("R2", C + ":refit-guarded", "the refit also happens with update_params=False (fitted parameters change although updating is disabled)",
@@ -529,6 +589,11 @@ def r3(ctx, repo):
             ctx.violation("R3", key, "the list handed over as cutoffs collects the forecasts (roles swapped)", loc_of(fe))
         elif not res.loops_of(e):
             ctx.violation("R3", key, "the cutoff is recorded once, outside the loop over the windows (one label for all forecasts)", loc_of(e))
+        elif mentions(res, v, ("item", elem, ("const", 1))) and not mentions(res, v, after_u):
+            ctx.violation("R3", key, "the label recorded for a forecast is computed from the split's *test* window (%s), not read from the "
+                          "forecaster's cutoff after the update: for horizons that do not start at 1 (or with gaps) the columns carry a time "
+                          "point that is not the cutoff the forecast was made from" % res.fmt(v), loc_of(e),
+                          witness={"history": "update_predict(y, cv=SlidingWindowSplitter(fh=[2, 3])): labels are one step late"})
         elif isinstance(v, tuple) and v[0] in ("attr0", "attr@") and v[1] == "_cutoff":
             ctx.violation("R3", key, "the cutoff recorded for a window is read before that window's update (%s): every forecast is labelled "
                           "with the previous cutoff" % res.fmt(v), loc_of(e))
@@ -837,6 +902,14 @@ def r4(ctx, repo):
             def allowed(c, recv=e.recv):
                 return c[0] == "if" and c[1] == ("hasattr", recv, ("const", "update")) and c[2] is True
 
+            disp = [d for d in res.of_kind("dispatch") if any(isinstance(x, tuple) and x[:1] == ("comp",) and len(x) == 3 and x[2] in res.loops_of(e)
+                                                                for x in _subterms(d.value))]
+            if disp:
+                kept = any(mentions(res, st.value, ("ret", e.id)) or mentions(res, st.value, disp[0].ret) for st in res.stores() if st.id > disp[0].id)
+                ctx.check(kept, "R4", K + ":in-process", "the updated estimators returned by the workers are stored back",
+                          "the inner updates are dispatched through joblib.Parallel and the returned estimators are dropped: with n_jobs > 1 the "
+                          "workers update pickled copies, the composite's own members never see the new data", loc_of(disp[0]),
+                          witness={"configuration": "n_jobs=2", "history": "fit(y1); update(y2); predict(): member cutoffs unchanged"})
             cov = res.unconditional(e, allow_loops=(lid,) if lid else (), allow=allowed) and covers and (lid is None or loop_plain(res, lid))
             ctx.check(cov, "R4", K + ":coverage", "every inner estimator is updated on every path",
                       "not every inner estimator is updated on every path (conditional or partial loop)", loc_of(e))
